@@ -279,6 +279,8 @@ def readDataBlockPatch (inflate : Bytes → Nat → Option Bytes) (s : Bytes) : 
   -- negative i32 lengths: `as usize` sign-extends, the allocation aborts
   if 2 ^ 31 ≤ x.toNat ∨ 2 ^ 31 ≤ y.toNat then none
   if x.toNat < 32000 then
+    -- `decompressed_length > MAX_DECOMPRESSED_BLOCK_SIZE` (1 MiB) is refused (fix C17-13)
+    if 2 ^ 20 < y.toNat then none
     let padded := pad128 x.toUInt64
     if padded < size.toUInt64 then none      -- usize subtraction overflows
     let (c, rest) ← rdN (padded - size.toUInt64).toNat body
@@ -295,7 +297,9 @@ def writeDataBlockPatch (d : Bytes) : Bytes :=
   let len := UInt64.ofNat d.length
   putU32le (pad128 len - len).toUInt32 ++ putU32le 0 ++ putU32le 32000 ++ putU32le len.toUInt32 ++ d
 
-/-- `while data.len() < file_size { data.append(read_data_block_patch(..).unwrap()) }` -/
+/-- the blocks of one AddFile, decompressed and concatenated: reads blocks until `size` bytes are
+there (the loop `apply` ran before fix C17-13; now the *reading* half of `streamBlocks`, used by
+`parseChunks` and, through `streamBlocks_of_readBlocks`, by the proofs) -/
 def readBlocks (inflate : Bytes → Nat → Option Bytes) : Nat → Bytes → Nat → Bytes → Option (Bytes × Bytes)
   | 0, _, _, _ => none
   | fuel + 1, s, size, acc =>
@@ -304,6 +308,41 @@ def readBlocks (inflate : Bytes → Nat → Option Bytes) : Nat → Bytes → Na
       | none => none
       | some (d, s') => readBlocks inflate fuel s' size (acc ++ d)
     else some (acc, s)
+
+/-- the content of the file at `p` (must be a regular file) replaced by `f old` -/
+def modifyFile (t : Tree) (p : Path) (f : Bytes → Bytes) : Tree :=
+  match get t p with
+  | some (.file old) => set t p (.file (f old))
+  | _ => t
+
+/-- The AddFile block loop (fix C17-13: a block is written as soon as it is read, nothing is
+accumulated): `let mut remaining = file_size; while remaining > 0 { let block =
+read_data_block_patch(..)?; if let Some(f) = new_file.as_mut() { f.write_all(&block)? };
+remaining = remaining.saturating_sub(block.len()) }`.  `opened` = the target `full` could be opened,
+`pos` = its cursor.  Returns the tree and the rest of the patch; `none` = a block failed to parse —
+the tree then holds what was written up to that block. -/
+def streamBlocks (inflate : Bytes → Nat → Option Bytes) (full : Path) (opened : Bool) :
+    Nat → Bytes → Nat → Nat → Tree → Tree × Option Bytes
+  | 0, _, _, _, t => (t, none)
+  | fuel + 1, s, remaining, pos, t =>
+    if 0 < remaining then
+      match readDataBlockPatch inflate s with
+      | none => (t, none)
+      | some (d, s') =>
+        streamBlocks inflate full opened fuel s' (remaining - d.length) (pos + d.length)
+          (if opened then modifyFile t full (fun old => writeAt old pos d) else t)
+    else (t, some s)
+
+/-- the AddFile arm of `apply` after `create_dir_all(parent)` (tree `t1`): the target is opened
+(`None`: "does not exist, skipping" — the blocks are still read, and dropped), truncated when the
+offset is 0, the cursor is set to the offset; then the block loop runs. -/
+def addFileBlocks (inflate : Bytes → Nat → Option Bytes) (t1 : Tree) (full : Path) (off : UInt64)
+    (size fuel : Nat) (sb : Bytes) : Tree × Option Bytes :=
+  match openCreate t1 full with
+  | none => streamBlocks inflate full false fuel sb size off.toNat t1
+  | some t2 =>
+    streamBlocks inflate full true fuel sb size off.toNat
+      (modifyFile t2 full (fun old => if off = 0 then [] else old))
 
 /-! ## target names -/
 
@@ -354,12 +393,6 @@ def pathComps (p : Bytes) : Path × Path :=
   (norm cs.dropLast, norm cs)
 
 /-! ## `ZiPatch::apply` -/
-
-/-- the content of the file at `p` (must be a regular file) replaced by `f old` -/
-def modifyFile (t : Tree) (p : Path) (f : Bytes → Bytes) : Tree :=
-  match get t p with
-  | some (.file old) => set t p (.file (f old))
-  | _ => t
 
 /-- `write_empty_file_block_at`: wipe `n << 7` bytes from `off`, seek back, five `i32`
 (128, 0, 0, `n − 1`, 0).  `none` = the block count is rejected (`n − 1` does not fit an `i32`):
@@ -476,17 +509,17 @@ def applyLoop (inflate : Bytes → Nat → Option Bytes) :
       if sb.length < 4 then (.parseError, t)      -- `crc32` cannot be read
       else
         match c with
-        | .fileOp .addFile _ size _ path =>
-          -- `create_dir_all` comes first; then un-read the crc, pull blocks, skip the crc again
+        | .fileOp .addFile off size _ path =>
+          -- `create_dir_all` comes first; then un-read the crc, open the target (truncate it for
+          -- offset 0, seek), pull the blocks and write each one at once (fix C17-13), skip the crc
+          -- again.  (For a patch whose blocks all parse this is `applyChunk` on the concatenated
+          -- blocks: `applyLoop_encodeCmd`.)
           match mkdirAll t [] (pathComps path).1 with
           | none => (.ioError, t)
           | some t1 =>
-            match readBlocks inflate (sb.length + 1) sb size.toNat [] with
-            | none => (.parseError, t1)   -- a bad data block is a parse error (fix C17-09)
-            | some (data, s') =>
-              match applyChunk ti t data c with
-              | (ti', t', none) => applyLoop inflate fuel (s'.drop 4) ti' t'
-              | (_, t', some o) => (o, t')
+            match addFileBlocks inflate t1 (pathComps path).2 off size.toNat (sb.length + 1) sb with
+            | (t3, none) => (.parseError, t3)   -- a bad data block is a parse error (fix C17-09)
+            | (t3, some s') => applyLoop inflate fuel (s'.drop 4) ti t3
         | c =>
           match applyChunk ti t [] c with
           | (ti', t', none) => applyLoop inflate fuel (sb.drop 4) ti' t'
